@@ -121,11 +121,11 @@ def vstep (flag : Bool) (cls : String) (o : Obj) : List Step := if flag then [.v
 def isStr : PyVal → Bool | .str _ => true | _ => false
 def isNum : PyVal → Bool | .int _ | .bool _ | .float _ => true | _ => false
 
-/-- `sorted(v)`: does it raise?  (elements must be pairwise comparable: all strings or all numbers) -/
+/-- `sorted(v)`: does it raise?  (elements must be pairwise comparable: all strings or all numbers; the arch SET of a real
+object travels as a list, so a foreign object here is not iterable) -/
 def pySortedOk : PyVal → Except Err Unit
   | .list xs => if xs.length ≤ 1 || xs.all isStr || xs.all isNum then .ok () else .error .typeError
   | .str _ | .dict _ => .ok ()
-  | .other _ => .ok ()                      -- a set / tuple: outside the universe, assumed sortable
   | _ => .error .typeError
 
 /-- `d[k] = …` / `d.get(k)`: a list or dict key is unhashable -/
